@@ -29,13 +29,55 @@ class _Obj(_S):
         self.__dict__.update(kw)
 
 
+class _Index(_S, list):
+    """A pandas index: a list of labels with isin()."""
+
+    def isin(self, values):
+        vs = set(values)
+        return NA([x in vs for x in self]) if len(self) else ndmodel._empty((0,))
+
+    def tolist(self):
+        return list(self)
+
+    def __hash__(self):
+        return id(self)
+
+
 class _Series(_S):
+    """The part of pandas.Series that building and slicing a result vector needs."""
+
     def __init__(self, data=None, index=None, name=None, dtype=None, **kw):
         vals = data.tolist() if isinstance(data, NA) else (list(data.values()) if isinstance(data, dict) else list(data if data is not None else []))
         idx = list(index) if index is not None else (list(data.keys()) if isinstance(data, dict) else list(range(len(vals))))
         if len(vals) != len(idx):
             raise ValueError(f"Length of values ({len(vals)}) does not match length of index ({len(idx)})")
-        self.index, self.values, self.name = idx, vals, name
+        self.index, self.values, self.name = _Index(idx), vals, name
+
+    def to_numpy(self, *a, **k):
+        return NA(list(self.values)) if self.values else ndmodel._empty((0,))
+
+    def __len__(self):
+        return len(self.values)
+
+    def __getitem__(self, key):
+        if isinstance(key, NA):
+            if key.shape != (len(self.values),):
+                raise IndexError("boolean index did not match the series")
+            keep = [i for i, k in enumerate(key.data) if k]
+            return _Series([self.values[i] for i in keep], [self.index[i] for i in keep], self.name)
+        if isinstance(key, (list, _Index)):
+            pos = {lab: i for i, lab in enumerate(self.index)}
+            return _Series([self.values[pos[k]] for k in key], list(key), self.name)  # KeyError for an unknown label, as pandas
+        pos = {lab: i for i, lab in enumerate(self.index)}
+        return self.values[pos[key]]
+
+    def reindex(self, labels, *a, **k):
+        pos = {lab: i for i, lab in enumerate(self.index)}
+        return _Series([self.values[pos[l]] if l in pos else float("nan") for l in labels], list(labels), self.name)
+
+    @property
+    def loc(self):
+        return self
 
 
 class _RList(_S, list):
@@ -102,6 +144,9 @@ def check_get_solution(ctx, rule: str) -> None:
                 stubs = {k: (lambda f_: (lambda it_, ev, c, a, kw: f_(*a, **kw)))(f) for k, f in ndmodel.NUMPY.items()}
                 stubs["numpy.empty"] = lambda it_, ev, c, a, kw: _empty(*a)
                 stubs["numpy.zeros"] = lambda it_, ev, c, a, kw: _empty(*a)
+                stubs["numpy.isin"] = lambda it_, ev, c, a, kw: _Index(a[0].tolist() if isinstance(a[0], NA) else a[0]).isin(a[1].tolist() if isinstance(a[1], NA) else a[1])
+                stubs["numpy.array"] = lambda it_, ev, c, a, kw: _Arr(list(a[0])) if len(list(a[0])) else _empty(0)
+                stubs["numpy.fromiter"] = lambda it_, ev, c, a, kw: _Arr(list(a[0])) if len(list(a[0])) else _empty(0)
                 stubs["numpy.full"] = lambda it_, ev, c, a, kw: _Arr([a[1]] * int(a[0])) if int(a[0]) else _empty(0)
                 stubs["pandas.Series"] = lambda it_, ev, c, a, kw: _Series(*a, **kw)
                 stubs["cobra.core.solution.Solution"] = lambda it_, ev, c, a, kw: _Obj(**kw) if not a else _Obj(**dict(zip(("objective_value", "status", "fluxes", "reduced_costs", "shadow_prices"), a), **kw))
@@ -122,6 +167,8 @@ def check_get_solution(ctx, rule: str) -> None:
                     raise AnalysisError(f"C04.labels: {what} cannot be evaluated: {exc}")
                 except ndmodel.Unsupported as exc:
                     raise AnalysisError(f"C04.labels: {what} uses an array operation outside the array model: {exc}")
+                except (TypeError, AttributeError) as exc:
+                    raise AnalysisError(f"C04.labels: {what} leaves the array / series model: {exc}")
                 want_r = rids if ridx is None else [rids[i] for i in ridx]
                 want_m = mids if midx is None else [mids[i] for i in midx]
                 fl = getattr(sol, "fluxes", None)
